@@ -413,7 +413,64 @@ static void op_amr(const std::vector< std::string > &w) {
       oracle("amr-position-inside-another-cell");
   } else if (sub == "key" && w.size() == 6) {
     const CoordinateVector<> p(dbl(w[3]), dbl(w[4]), dbl(w[5]));
-    std::cout << "amr key " << amr->get_key((uint_fast8_t)u64(w[2]), p) << "\n";
+    const uint64_t level = u64(w[2]);
+    const amrkey_t key = amr->get_key((uint_fast8_t)level, p);
+    // the plain index arithmetic of the loop (the model's): out of range by rounding?
+    bool raw_oor = false;
+    {
+      uint_fast32_t bi[3];
+      for (int i = 0; i < 3; ++i) {
+        bi[i] = amr_n[i] * (p[i] - amr_box.get_anchor()[i]) / amr_box.get_sides()[i];
+        if (bi[i] >= amr_n[i])
+          raw_oor = true;
+      }
+      if (!raw_oor) {
+        CoordinateVector<> sides, anchor;
+        for (int i = 0; i < 3; ++i) {
+          sides[i] = amr_box.get_sides()[i] / amr_n[i];
+          anchor[i] = amr_box.get_anchor()[i] + bi[i] * sides[i];
+        }
+        Box<> box(anchor, sides);
+        for (uint64_t l = 0; l < level && !raw_oor; ++l) {
+          uint_fast32_t ci[3];
+          for (int i = 0; i < 3; ++i) {
+            ci[i] = 2 * (p[i] - box.get_anchor()[i]) / box.get_sides()[i];
+            if (ci[i] >= 2)
+              raw_oor = true;
+          }
+          box.get_sides() *= 0.5;
+          for (int i = 0; i < 3; ++i)
+            box.get_anchor()[i] += ci[i] * box.get_sides()[i];
+        }
+      }
+    }
+    if (raw_oor)
+      std::cout << "amr key out-of-range\n";
+    else
+      std::cout << "amr key " << key << "\n";
+    // oracle: the (virtual) cell the key addresses contains the position
+    {
+      const uint64_t block = key >> 32, cell = key & 0xffffffffull;
+      const uint64_t b3[3] = {(block >> 20) & 0x3ff, (block >> 10) & 0x3ff, block & 0x3ff};
+      bool ok = b3[0] < amr_n[0] && b3[1] < amr_n[1] && b3[2] < amr_n[2] && (cell >> (3 * level)) == 1;
+      if (ok) {
+        CoordinateVector<> sides, anchor;
+        for (int i = 0; i < 3; ++i) {
+          sides[i] = amr_box.get_sides()[i] / amr_n[i];
+          anchor[i] = amr_box.get_anchor()[i] + b3[i] * sides[i];
+        }
+        for (uint64_t l = 0; l < level; ++l) {
+          const uint64_t d = (cell >> (3 * l)) & 7;
+          const uint64_t ci[3] = {(d >> 2) & 1, (d >> 1) & 1, d & 1};
+          sides *= 0.5;
+          for (int i = 0; i < 3; ++i)
+            anchor[i] += ci[i] * sides[i];
+        }
+        ok = in_box(Box<>(anchor, sides), p, AMR_TOL, box_scale(amr_box));
+      }
+      if (!ok)
+        oracle("locate-index-out-of-range amr-key");
+    }
   } else if (sub == "ngbs" && w.size() == 5) {
     const bool per[3] = {w[2] == "1", w[3] == "1", w[4] == "1"};
     amr->set_ngbs(CoordinateVector< bool >(per[0], per[1], per[2]));
